@@ -14,8 +14,9 @@ RULE = ('files with 1..5 dimensions of length 1..4 (one may be unlimited), 1..4 
         'start/stop/step incl. empty and reversed, index lists with repeats and negative entries, 2..3 equal-length lists (zipped); '
         'targeted streams for int+list separated by a slice axis and zipped+int (the repaired defects); malformed stream (unknown dimension, out-of-range '
         'int/list element, step 0, unequal list lengths), empty zipped lists; string form slice_dim (as dim=slice(start,stop,stride)) and the '
-        'IOAPI wrapper ioapi_base.sliceDimensions (4-d/2-d float32 variables over TSTEP,LAY,ROW,COL, non-empty selections incl. zipped ROW/COL; '
-        'data part only). Every case is evaluated in Coq (model impl_slice_file and spec_slice_file, Corr/C02.v) AND by an independent numpy '
+        'IOAPI wrapper ioapi_base.sliceDimensions (4-d/2-d float32 variables over TSTEP,LAY,ROW,COL plus TFLAG rows as a (TSTEP,DATE-TIME) variable '
+        'and getTimes(); files with 5..8 steps and TSTEP index lists of >= 3 entries that are irregular / unsorted / repeating / negative; non-empty '
+        'selections incl. zipped ROW/COL; IOAPI attributes and the VAR axis are metadata, not compared). Every case is evaluated in Coq (model impl_slice_file and spec_slice_file, Corr/C02.v) AND by an independent numpy '
         'take/slice oracle in Python. '
         'Non-trivial = the call succeeded and at least one variable changed shape or cells.')
 TRUSTED = ['numpy single-axis indexing, basic scalar/slice indexing, ma.expand_dims/ma.concatenate, broadcasting assignment and C-order reshape are '
@@ -226,10 +227,16 @@ def _gen_ioapi(rng):
     """cmaqfiles ioapi_base.sliceDimensions (wrapper around the core method): 4-d (TSTEP,LAY,ROW,COL) and 2-d (ROW,COL)
     float32 variables; non-empty selections only (the wrapper's metadata updates index the first selected element)"""
     names = ['TSTEP', 'LAY', 'ROW', 'COL']
+    long_t = rng.random() < 0.5
     while True:
         lens = [rng.choice([1, 2, 2, 3, 3, 4]) for _ in names]
+        if long_t:      # enough steps for irregular / unsorted / repeating index lists
+            lens[0] = rng.randint(5, 8)
+            lens[1:] = [rng.choice([1, 1, 2, 2, 3]) for _ in names[1:]]
         if lens[0] * lens[1] * lens[2] * lens[3] <= 72:
             break
+    tattrs = dict(SDATE=rng.choice([2020365, 2019001, 2021364, 2000059]), STIME=rng.choice([0, 210000, 233000, 120000]),
+                  TSTEP=rng.choice([10000, 13000, 3000, 240000, 60000]))
     dims = [[n, l, False] for n, l in zip(names, lens)]
     lend = dict(zip(names, lens))
     vs = [dict(name='O3', dims=list(names), masked=False)]
@@ -239,7 +246,37 @@ def _gen_ioapi(rng):
         vs.append(dict(name='HT', dims=['ROW', 'COL'], masked=False))
     r = rng.random()
     kws = []
-    if r < 0.35:
+    if long_t and r < 0.7:
+        # TSTEP by an index list with >= 3 entries: irregular spacing, unsorted, repeats
+        nt = lend['TSTEP']
+        k = rng.randint(3, 5)
+        how = rng.choice(['irregular', 'unsorted', 'repeats', 'random'])
+        if how == 'irregular':
+            while True:
+                tl = sorted(rng.sample(range(nt), k if k <= nt else nt))
+                if len(set(b - a for a, b in zip(tl, tl[1:]))) > 1:
+                    break
+        elif how == 'unsorted':
+            tl = rng.sample(range(nt), min(k, nt))
+            if tl == sorted(tl):
+                tl.reverse()
+                tl[0], tl[-1] = tl[-1], tl[0]
+                tl.insert(1, tl.pop())
+        elif how == 'repeats':
+            tl = [rng.randrange(nt) for _ in range(k - 1)]
+            tl.insert(rng.randrange(k - 1), tl[0])
+        else:
+            tl = [rng.randrange(-nt, nt) for _ in range(k)]
+        kws.append(['TSTEP', {'l': tl}])
+        zipped = rng.random() < 0.25
+        for dn in names[1:]:
+            if zipped and dn == 'ROW':
+                kws.append([dn, {'l': _gen_list(rng, lend[dn], len(tl))}])
+            elif rng.random() < 0.4:
+                kws.append([dn, _nonempty_sel(rng, rng.choice('iss'), lend[dn])])
+        rng.shuffle(kws)
+        sub = 'tsteplist-' + how + ('-zip' if zipped else '')
+    elif r < 0.35:
         for dn in rng.sample(names, rng.randint(1, 4)):
             kws.append([dn, _nonempty_sel(rng, rng.choice('iss'), lend[dn])])
         sub = 'basic'
@@ -259,7 +296,7 @@ def _gen_ioapi(rng):
                 kws.append([dn, _nonempty_sel(rng, rng.choice('iss'), lend[dn])])
         rng.shuffle(kws)
         sub = 'zip'
-    return dict(kind='ioapi-' + sub, dims=dims, vars=vs, kws=kws)
+    return dict(kind='ioapi-' + sub, dims=dims, vars=vs, kws=kws, tattrs=tattrs)
 
 
 def _gen_strform(rng):
@@ -355,14 +392,25 @@ def _impl_ioapi(case):
         shape = tuple(lend[n] for n in v['dims'])
         arrs[v['name']] = np.array(_cellvals(vi, int(np.prod(shape))), dtype='f').reshape(shape)
     nl = lend['LAY']
-    f = ioapi_base.from_arrays(fileattrs=dict(VGLVLS=np.linspace(1, 0, nl + 1, dtype='f'), VGTOP=np.float32(5000),
-                                              XORIG=0., YORIG=0., XCELL=1000., YCELL=1000.), **arrs)
+    fa = dict(VGLVLS=np.linspace(1, 0, nl + 1, dtype='f'), VGTOP=np.float32(5000), XORIG=0., YORIG=0., XCELL=1000., YCELL=1000.)
+    fa.update(case.get('tattrs', {}))
+    f = ioapi_base.from_arrays(fileattrs=fa, **arrs)
+    tflag_in = [[int(x) for x in row] for row in np.asarray(f.variables['TFLAG'][:, 0, :]).tolist()]
+    times_in = [t.strftime('%Y%j %H%M%S') for t in f.getTimes()]
     kw = {}
     for dn, s in case['kws']:
         kw[dn] = _pysel(s)
     o = f.sliceDimensions(**kw)
     obs = _observe(o)
-    # data part only: TFLAG / VAR / DATE-TIME and the IOAPI attributes are metadata (C10, C11)
+    # TFLAG is a variable like any other along TSTEP: its (date, time) rows are compared as a (TSTEP, DATE-TIME) variable;
+    # its VAR axis (all columns equal), the VAR dimension and the IOAPI attributes are metadata (C10, C11)
+    tf = np.asarray(o.variables['TFLAG'][...])
+    obs['tflag'] = [[int(x) for x in row] for row in tf[:, 0, :].tolist()] if tf.shape[1] > 0 else None
+    obs['tflag_cols_same'] = bool((tf == tf[:, :1, :]).all())
+    obs['tflag_dims'] = list(o.variables['TFLAG'].dimensions)
+    obs['tflag_in'] = tflag_in
+    obs['times_in'] = times_in
+    obs['times'] = [t.strftime('%Y%j %H%M%S') for t in o.getTimes()]
     obs['vars'] = [v for v in obs['vars'] if v['name'] != 'TFLAG']
     obs['dims'] = [d for d in obs['dims'] if d[0] not in ('VAR', 'DATE-TIME')]
     obs['gattrs'] = []
@@ -401,11 +449,13 @@ def _ccells(cells):
 def _ccells_in(case, vi, v):
     # input cells carry the stored value under the mask too (the point loop exposes it)
     cells = _in_cells(case, vi, v)
-    vals = _cellvals(vi, len(cells))
+    vals = list(v['cells']) if 'cells' in v else _cellvals(vi, len(cells))
     return '[' + '; '.join('(%s, %s)' % (C.zc(x), 'true' if c is None else 'false') for x, c in zip(vals, cells)) + ']'
 
 
 def _in_cells(case, vi, v):
+    if 'cells' in v:
+        return list(v['cells'])
     lend = dict((d[0], d[1]) for d in case['dims'])
     size = 1
     for n in v['dims']:
@@ -422,6 +472,23 @@ def _strform_as_case(case, obs):
     if not any(case['dim'] in v['dims'] for v in case['vars']):
         return None
     return dict(case, kws=[[case['dim'], {'s': list(case['sl'])}]])
+
+
+def _ioapi_aug(case, obs):
+    """TFLAG joins the compared variables: input rows TFLAG[:, 0, :] as a (TSTEP, DATE-TIME) variable of the case, the
+    output rows as the observed variable"""
+    if 'raises' in obs or obs.get('tflag') is None or 'tflag_in' not in obs:
+        return case, obs
+    nt = len(obs['tflag_in'])
+    case2 = dict(case, dims=case['dims'] + [['DATE-TIME', 2, False]],
+                 vars=case['vars'] + [dict(name='TFLAG', dims=['TSTEP', 'DATE-TIME'], masked=False,
+                                           cells=[x for row in obs['tflag_in'] for x in row])])
+    tfd = [d for d in obs['tflag_dims'] if d != 'VAR']
+    ov = dict(name='TFLAG', dims=tfd, shape=[len(obs['tflag']), 2], data=[x for row in obs['tflag'] for x in row],
+              masked=False, attrs=[], dtype='float32')
+    obs2 = dict(obs, vars=obs['vars'] + [ov], dims=[d for d in obs['dims'] if d[0] != 'POINTS'] + [['DATE-TIME', 2, False]] +
+                [d for d in obs['dims'] if d[0] == 'POINTS'])
+    return case2, obs2
 
 
 def _ioapi_obs(case, obs):
@@ -449,6 +516,7 @@ def coq_term(case, obs):
         if case is None:
             return None
     if case['kind'].startswith('ioapi'):
+        case, obs = _ioapi_aug(case, obs)
         obs = _ioapi_obs(case, obs)
     names = [d[0] for d in case['dims']]
     nd = len(names)
@@ -603,10 +671,25 @@ def py_check(case, obs):
 def _check_ioapi(case, obs):
     """data part of the IOAPI wrapper: every data variable is the orthogonal / zipped selection (float32 cells hold
     exact integers); dimension lengths agree wherever the dimension still exists"""
-    exp = _expected(case)
-    if exp is None or 'raises' in obs:
+    if 'raises' in obs:
         return dict(s_ok=False, region=0, why='IOAPI sliceDimensions raised %s: %s' % (obs.get('raises'), obs.get('msg', '')[:100]))
     why = []
+    if obs.get('tflag') is None:
+        why.append('TFLAG has no VAR column')
+    if not obs.get('tflag_cols_same', False):
+        why.append('TFLAG columns differ between variables')
+    case, obs = _ioapi_aug(case, obs)
+    exp = _expected(case)
+    if exp is None:
+        return dict(s_ok=False, region=0, why='generator produced a malformed IOAPI case')
+    if 'TFLAG' in exp['vars']:
+        # getTimes() of the result = the selected instants of the input
+        import datetime
+        rows = exp['vars']['TFLAG'][1].reshape(-1, 2).tolist()
+        etimes = ['%07d %06d' % (r[0], r[1]) for r in rows]
+        etimes = [datetime.datetime.strptime(t, '%Y%j %H%M%S').strftime('%Y%j %H%M%S') for t in etimes]
+        if obs['times'] != etimes:
+            why.append('getTimes() %s != selected input instants %s' % (obs['times'][:6], etimes[:6]))
     have = dict((d[0], d[1]) for d in obs['dims'])
     for n, l, u in exp['dims']:
         if n in have and have[n] != l:
@@ -625,6 +708,8 @@ def _check_ioapi(case, obs):
             why.append('%s cells differ: got %s expected %s' % (ov['name'], ov['data'][:12], earr.ravel().tolist()[:12]))
         if ov['dtype'] != 'float32' or ov['masked']:
             why.append('%s dtype/masked %s %s' % (ov['name'], ov['dtype'], ov['masked']))
+    if 'TFLAG' not in [ov['name'] for ov in obs['vars']]:
+        why.append('TFLAG not compared')
     if obs.get('cls') != 'ioapi_base':
         why.append('result class %s' % obs.get('cls'))
     return dict(s_ok=not why, region=0, why='; '.join(why)[:600])
